@@ -1,39 +1,39 @@
 #!/venv/bin/python
-"""tools/refactor_matrix.py [refactoring ids…]  -  for every behaviour-preserving refactoring under refactorings/, run the quick
-check of EVERY property anchored in a file the patch touches (not only the property it was written for) in a scratch worktree
-and print the matrix.  Exit 0 always; this is a measurement of robustness, not a registered check.  VERIF_SEED (default 0)."""
+"""tools/refactor_matrix.py <property> [refactoring ids…]  -  run the quick check of ONE property on every behaviour-preserving
+refactoring under refactorings/ whose patch touches a file the property is anchored in (not only the refactoring written for
+it), each in a scratch worktree, and print one line per property.  One process per property may run in parallel (different
+properties own different Generated files); never two for the same property.  A measurement, not a registered check."""
 import json, os, re, subprocess, sys, tempfile, shutil
 ROOT = os.path.dirname(os.path.dirname(os.path.abspath(__file__)))
-props = [json.loads(l) for l in open(os.path.join(ROOT, "properties.jsonl"))]
-ids = sys.argv[1:] or sorted(os.listdir(os.path.join(ROOT, "refactorings")))
-ids = [i for i in ids if os.path.isdir(os.path.join(ROOT, "refactorings", i))]
+pid = sys.argv[1]
+prop = [json.loads(l) for l in open(os.path.join(ROOT, "properties.jsonl")) if json.loads(l)["id"] == pid][0]
+ids = sys.argv[2:] or sorted(d for d in os.listdir(os.path.join(ROOT, "refactorings"))
+                             if os.path.isdir(os.path.join(ROOT, "refactorings", d)))
 seed = os.environ.get("VERIF_SEED", "0")
-rows = []
+res = {}
 for rid in ids:
     patch = os.path.join(ROOT, "refactorings", rid, "patch.diff")
     touched = set(re.findall(r"^\+\+\+ b/(\S+)", open(patch).read(), flags=re.M))
-    hit = [p["id"] for p in props if touched & set(p["anchors"]["files"])]
-    wt = tempfile.mkdtemp(prefix="wt-mat-", dir="/tmp"); os.rmdir(wt)
+    if not (touched & set(prop["anchors"]["files"])):
+        continue
+    wt = tempfile.mkdtemp(prefix="wt-mat-", dir="/tmp")
+    os.rmdir(wt)
     subprocess.run(["git", "-C", "/repo", "worktree", "add", "-q", wt, "HEAD"], check=True)
     try:
         if subprocess.run(["git", "-C", wt, "apply", patch]).returncode != 0:
-            rows.append((rid, "PATCH DOES NOT APPLY", {})); continue
-        res = {}
-        for pid in hit:
-            save = tempfile.mkdtemp(prefix="mat-save-", dir="/tmp")
-            gen = [f for f in os.listdir(os.path.join(ROOT, "lean/MenpoModel/Generated")) if f.startswith(pid)]
-            files = ["evidence/%s.json" % pid] + ["lean/MenpoModel/Generated/" + f for f in gen]
-            subprocess.run(["tar", "cf", os.path.join(save, "s.tar")] + files, cwd=ROOT)
-            env = dict(os.environ, MENPO_REPO=wt, VERIF_SEED=seed)
-            p = subprocess.run([os.path.join(ROOT, "check"), pid, "--tier", "quick"], cwd=ROOT, env=env,
-                               stdout=subprocess.PIPE, stderr=subprocess.STDOUT, text=True)
-            out = [l for l in p.stdout.splitlines() if not l.startswith("KNOWN-FINDING")]
-            last = out[-1] if out else ""
-            res[pid] = ("ok" if p.returncode == 0 else ("nfi" if "no-failing-input-found" in p.stdout else
-                        ("VIOLATION" if p.returncode == 1 else "INFRA")))
-            subprocess.run(["tar", "xf", os.path.join(save, "s.tar")], cwd=ROOT); shutil.rmtree(save)
-        rows.append((rid, "", res))
-        print(rid, " ".join("%s:%s" % kv for kv in sorted(res.items())), flush=True)
+            res[rid] = "patch-does-not-apply"
+            continue
+        save = tempfile.mkdtemp(prefix="mat-save-", dir="/tmp")
+        gen = [f for f in os.listdir(os.path.join(ROOT, "lean/MenpoModel/Generated")) if f.startswith(pid)]
+        files = ["evidence/%s.json" % pid] + ["lean/MenpoModel/Generated/" + f for f in gen]
+        subprocess.run(["tar", "cf", os.path.join(save, "s.tar")] + files, cwd=ROOT)
+        env = dict(os.environ, MENPO_REPO=wt, VERIF_SEED=seed)
+        p = subprocess.run([os.path.join(ROOT, "check"), pid, "--tier", "quick"], cwd=ROOT, env=env,
+                           stdout=subprocess.PIPE, stderr=subprocess.STDOUT, text=True)
+        res[rid] = ("ok" if p.returncode == 0 else ("no-failing-input-found" if "no-failing-input-found" in p.stdout else
+                    ("VIOLATION-with-input" if p.returncode == 1 else "INFRA")))
+        subprocess.run(["tar", "xf", os.path.join(save, "s.tar")], cwd=ROOT)
+        shutil.rmtree(save)
     finally:
         subprocess.run(["git", "-C", "/repo", "worktree", "remove", "--force", wt])
-json.dump({r[0]: r[2] for r in rows}, open(os.path.join(ROOT, "refactorings", "matrix.json"), "w"), indent=1)
+print(pid, json.dumps(res, sort_keys=True), flush=True)
